@@ -250,6 +250,14 @@ def run(ctx):
                             if isinstance(q, ast.Subscript) and q.value is c:
                                 # signs[:, None] style broadcasting
                                 c, q = q, pmf.get(id(q))
+                            if isinstance(q, ast.Assign) and q.value is c and len(q.targets) == 1 and isinstance(q.targets[0], ast.Name):
+                                # the (reshaped) signs kept in a local: every use of that local is a multiplication
+                                alias = q.targets[0].id
+                                auses = [x for x in f.own_nodes() if isinstance(x, ast.Name) and x.id == alias and isinstance(x.ctx, ast.Load)]
+                                okalias = bool(auses) and all((isinstance(pmf.get(id(x)), ast.BinOp) and isinstance(pmf[id(x)].op, ast.Mult)) or (isinstance(pmf.get(id(x)), ast.AugAssign) and isinstance(pmf[id(x)].op, ast.Mult) and pmf[id(x)].value is x) for x in auses)
+                                if okalias:
+                                    suse += len(auses)
+                                    continue
                             if (isinstance(q, ast.BinOp) and isinstance(q.op, ast.Mult)) or (isinstance(q, ast.AugAssign) and isinstance(q.op, ast.Mult) and q.value is c):
                                 suse += 1
                             else:
